@@ -442,11 +442,55 @@ def expand_derives(group, workdir):
     """R-DERIVE: run the REAL altrios proc macros (built from the current tree) on the real struct items and
     return the path of the expansion; step/save_state/push/len bodies are then extracted from it by vx."""
     ensure_vx()
-    env = dict(os.environ, CARGO_NET_OFFLINE="true", CARGO_TARGET_DIR=os.path.join(BUILD, "pm_target"))
-    r = sh(["cargo", "build", "-p", "altrios-proc-macros", "--offline", "--manifest-path", os.path.join(REPO, "rust", "Cargo.toml")], env=env)
+    # the proc macros are built from THIS source root. /repo uses the target dir prepared by MANIFEST.setup_cmd; a scratch
+    # copy (VERIF_REPO) builds inside itself, so that nothing stale is ever shared and it disappears with the copy.
+    # The artifact is taken from cargo's own JSON report (never the uplifted debug/*.so, which cargo does not refresh for
+    # a unit it considers fresh).
+    tdir = os.path.join(BUILD, "pm_target") if os.path.realpath(REPO) == "/repo" else os.path.join(REPO, "pm_target")
+    # cargo's freshness test for a path package is mtime-based and relative to the package root: an artifact built from
+    # OTHER sources with the same layout can look fresh. A content stamp of the macro sources decides instead.
+    pm_src = os.path.join(REPO, "rust", "altrios-core", "altrios-proc-macros")
+    hsh = hashlib.sha256()
+    for root, _dirs, files in sorted(os.walk(pm_src)):
+        if os.sep + "target" in root:
+            continue
+        for fn in sorted(files):
+            fp = os.path.join(root, fn)
+            hsh.update(fp[len(pm_src):].encode())
+            hsh.update(open(fp, "rb").read())
+    stamp = os.path.join(tdir, ".vx_pm_stamp")
+    want = hsh.hexdigest()
+    have = open(stamp).read().strip() if os.path.exists(stamp) else None
+    if have != want:
+        import glob
+        for pat in ("debug/.fingerprint/altrios-proc-macros-*", "debug/deps/*altrios_proc_macros*", "debug/libaltrios_proc_macros*"):
+            for x in glob.glob(os.path.join(tdir, pat)):
+                if os.path.isdir(x):
+                    shutil.rmtree(x, ignore_errors=True)
+                else:
+                    try:
+                        os.remove(x)
+                    except OSError:
+                        pass
+    env = dict(os.environ, CARGO_NET_OFFLINE="true", CARGO_TARGET_DIR=tdir)
+    r = sh(["cargo", "build", "-p", "altrios-proc-macros", "--offline", "--message-format=json", "--manifest-path", os.path.join(REPO, "rust", "Cargo.toml")], env=env)
     if r.returncode != 0:
         raise Undecided("building altrios-proc-macros failed: " + r.stderr[-1500:])
-    so = os.path.join(BUILD, "pm_target", "debug", "libaltrios_proc_macros.so")
+    so = None
+    for ln in r.stdout.split("\n"):
+        if ln.startswith("{") and '"compiler-artifact"' in ln:
+            try:
+                d = json.loads(ln)
+            except Exception:
+                continue
+            if d.get("target", {}).get("name") == "altrios_proc_macros" or d.get("target", {}).get("name") == "altrios-proc-macros":
+                for fn in d.get("filenames", []):
+                    if fn.endswith(".so"):
+                        so = fn
+    if so is None or not os.path.exists(so):
+        raise Undecided("altrios-proc-macros artifact not reported by cargo")
+    os.makedirs(tdir, exist_ok=True)
+    open(stamp, "w").write(want)
     plan = {"src_root": SRC, "items": [{"id": "raw " + x["name"], "file": x["file"], "kind": "struct_raw", "name": x["name"]} for x in group["expand"]]}
     pp = os.path.join(workdir, "plan_raw.json")
     json.dump(plan, open(pp, "w"), indent=1)
